@@ -734,6 +734,50 @@ func c15Params(p *chk.Prog, r *chk.Report) {
 		}
 		x.Check("Neighbor."+k, lit.Pos(), ok, "", "Neighbor."+k+" is not filled from SessionParameters."+table[k])
 	}
+	// an optional parameter (a pointer: hold, keepalive, connect time) is translated whenever it is given - on its own,
+	// whatever the others are: from the start of the function the literal is reached, with the parameter known to be
+	// non-nil or untested, only through the statement that copies it
+	g := f.Graph()
+	for _, k := range []string{"HoldTime", "KeepaliveTime", "ConnectTime"} {
+		src := p.LookupField("internal/bgp", "SessionParameters", table[k])
+		id, isID := ast.Unparen(kv[k]).(*ast.Ident)
+		if src == nil || !isID || f.ObjOf(id) == nil {
+			continue
+		}
+		o := f.ObjOf(id)
+		copies := func(n ast.Node) bool {
+			as, ok := n.(*ast.AssignStmt)
+			if !ok || len(as.Lhs) != len(as.Rhs) {
+				return false
+			}
+			for i, l := range as.Lhs {
+				if f.ObjOf(l) == o && f.MentionsField(as.Rhs[i], src) {
+					return true
+				}
+			}
+			return false
+		}
+		if len(g.Find(copies)) == 0 {
+			continue
+		}
+		isNil := chk.GFunc(func(ft chk.Fact) bool {
+			xx, yy, eq, ok := chk.EqParts(ft)
+			if !ok || !eq {
+				return false
+			}
+			other := xx
+			if f.IsNilLit(xx) {
+				other = yy
+			} else if !f.IsNilLit(yy) {
+				return false
+			}
+			return f.MentionsField(other, src)
+		})
+		litSite := g.FactSite(lit)
+		w := (&chk.Walk{G: g, Stop: copies, Hit: func(n ast.Node) bool { return litSite.B != nil && n == litSite.Top },
+			Cut: func(b *cfgBlock, kk int) bool { return g.EdgeImplies(b, kk, isNil) }}).Run()
+		x.Check("Neighbor."+k+":translated-whenever-given", lit.Pos(), !w.Found, "", "SessionParameters."+table[k]+" can be non-nil and still not reach the neighbour (its translation is conditioned on something else as well, the other timer say): the FRRConfiguration leaves out a parameter the session was given")
+	}
 }
 
 // c15Dump: ConfigToDump blanks the passwords for logging. The FRRConfiguration it receives by value shares its
